@@ -821,3 +821,42 @@ func runR3(res *core.Result) {
 		res.Brokenf("TWIN.r3: only %d fixed-layout builders recognised (expected Eye, Skew, Mul, Rotation.Mat)", builders)
 	}
 }
+
+// runShadow: TWIN.shadow. mat/shadow_complex.go carries the note "Generate
+// this file from shadow.go": its overlap predicate checkOverlapComplex is a
+// transcription of checkOverlap for cblas128.General. The two function
+// bodies must be images of each other under blas64->cblas128,
+// offset->offsetComplex, checkOverlap->checkOverlapComplex.
+func runShadow(res *core.Result) {
+	funcs := parseDirFuncs("mat")
+	a, b := funcs["checkOverlap"], funcs["checkOverlapComplex"]
+	if len(a) != 1 || len(b) != 1 {
+		res.Brokenf("TWIN.shadow: checkOverlap/checkOverlapComplex not found in mat (%d/%d)", len(a), len(b))
+		return
+	}
+	res.Obligations++
+	res.Count("shadow_twin_pairs", 1)
+	u := &unifier{fset: core.Fset,
+		rename: func(s string) []string {
+			switch s {
+			case "blas64":
+				return []string{"cblas128"}
+			case "offset":
+				return []string{"offsetComplex"}
+			case "checkOverlap":
+				return []string{"checkOverlapComplex"}
+			}
+			return []string{s}
+		},
+		lit: func(s string) []string { return []string{s} }}
+	if !(u.Nodes(a[0].Type, b[0].Type) && u.Nodes(a[0].Body, b[0].Body)) {
+		res.Add(core.Finding{
+			Rule: "TWIN.shadow",
+			Key:  "TWIN.shadow|mat.checkOverlap~checkOverlapComplex",
+			Pos:  core.Pos(u.posB), Func: "mat.checkOverlapComplex",
+			Msg: fmt.Sprintf("the real and complex overlap predicates of mat (shadow.go / shadow_complex.go, 'generate this file from shadow.go') differ beyond the blas64/cblas128 renaming: %s (other side at %s)", u.msg, core.Pos(u.posA)),
+		})
+	} else {
+		res.Count("shadow_twin_nodes", u.nodes)
+	}
+}
